@@ -139,7 +139,7 @@ func c05DaysIn(y, m int) int {
 // centuries explored: all in thorough, a spread incl. the epochs in quick
 func c05Century() int {
 	if vfThorough() {
-		return vfPick("century", 0, 99)
+		return vfPick("centuryhi", 0, 9)*10 + vfPick("centurylo", 0, 9)
 	}
 	return []int{0, 3, 15, 17, 18, 19, 20, 99}[vfPick("centuryidx", 0, 7)]
 }
